@@ -69,6 +69,32 @@ def buf_handles(F, b, a):
     return len(bundle_fields(F, ty))
 
 
+def writer_roles(F, b, pr=None):
+    """(value buffer, definition buffer) of a metric writer, as buffer slots"""
+    pr = pr or Prov(b)
+    bufs = buf_slots(F, b)
+    valbuf, defbuf = bufs[0], bufs[1]
+    # roles by what is done with the buffers, not by their position in the signature: the definition buffer is the one that
+    # receives the `{"Name":` literal here; the value buffer is the one on which the inner writer emits the member name
+    sim_ = c02.BufSim(F, b, CR)
+    named = [p_ for p_ in bufs if any(x.name == "push_raw_str" and len(x.args) > 1 and '"Name":' in (sim_._const_str(x.args[1]) or "") and
+                                      any(slot_match(y, p_) for y in pr.operand(x.args[0])) for x in b.calls())]
+    if len(named) == 1:
+        defbuf = named[0]
+        rest = [p_ for p_ in bufs if p_ != defbuf]
+        valbuf = rest[0]
+        for x in b.calls():
+            for sb in local_callee_bodies(F, x):
+                if sb.crate != CR:
+                    continue
+                spr = Prov(sb)
+                for ai, a in enumerate(x.args):
+                    src = [p_ for p_ in rest if any(slot_match(y, p_) for y in pr.operand(a))]
+                    if src and any(z.name == "json_string" and z.args and any(y[0] == "arg" and y[1] == ai + 1 for y in spr.operand(z.args[0])) for z in sb.calls()):
+                        valbuf = src[0]
+    return valbuf, defbuf
+
+
 def run(ctx):
     F = ctx.facts("dbg")
     wo = [b for b in F.all_bodies(CR) if c02.in_scope(b) and any(c.name == "push_integer" for c in b.calls()) and
@@ -147,19 +173,30 @@ def run(ctx):
         for c in wm:
             # each buffer argument comes out of a tuple built in two branches: compare owners per aggregate
             aggs = []
-            for i in b.live_blocks():
-                for s in b.stmts(i):
+            routers = [b] + [hb for x in b.calls() for hb in local_callee_bodies(F, x) if hb.crate == CR and hb.kind != "Closure" and
+                             bundle_fields(F, hb.d.get("output") or "")]
+            for rb in routers:
+              for i in rb.live_blocks():
+                for s in rb.stmts(i):
                     # ... a tuple, or a private struct bundling the two buffer references
                     if s["k"] == "assign" and s["rv"]["k"] == "agg" and len(s["rv"]["ops"]) >= 2 and (
                             s["rv"].get("agg") == "tuple" or (s["rv"].get("agg") == "adt" and bundle_fields(F, s["rv"].get("adt") or ""))):
-                        tys = [b.local_ty(op_local(o)) if op_local(o) is not None else "" for o in s["rv"]["ops"]]
+                        tys = [rb.local_ty(op_local(o)) if op_local(o) is not None else "" for o in s["rv"]["ops"]]
                         if sum(1 for t in tys if "PrefixedStringBuf" in t) >= 2:
-                            aggs.append((i, s))
+                            aggs.append((i, s, rb))
             ctx.floor("R03.2", "routing tuples (definition buffer, value buffer, index)", len(aggs), 2)
-            for i, s in aggs:
+            prs = {}
+            for i, s, rb in aggs:
                 owners = []
-                for o in [o_ for o_ in s["rv"]["ops"] if op_local(o_) is not None and PSB in b.local_ty(op_local(o_))][:2]:
-                    oo = pr.operand(o)
+                if rb.def_ not in prs:
+                    prs[rb.def_] = pr if rb is b else Prov(rb, adapter_pred=pr.adapter_pred)
+                # the value buffer and the definition buffer (a scratch buffer bundled with them belongs to the formatter, not to a record)
+                bops = [o_ for o_ in s["rv"]["ops"] if op_local(o_) is not None and PSB in rb.local_ty(op_local(o_))]
+                if len(bops) > 2 and s["rv"].get("fields"):
+                    role_fields = {sl[1] for wb_ in F.all_bodies(CR) if c02.in_scope(wb_) and len(buf_slots(F, wb_)) >= 3 for sl in writer_roles(F, wb_) if sl[1]}
+                    bops = [o_ for o_, f_ in zip(s["rv"]["ops"], s["rv"]["fields"]) if o_ in bops and f_ in role_fields]
+                for o in bops[:2]:
+                    oo = prs[rb.def_].operand(o)
                     ow = set()
                     for x in oo:
                         if x[0] == "arg" and x[2]:
@@ -175,7 +212,7 @@ def run(ctx):
                 call_a = {x for x in a if x[0] == "call"}
                 call_b = {x for x in b_ if x[0] == "call"}
                 same = (call_a == call_b and state_a == state_b)
-                ctx.check(same, "R03.2", fnkey(b) + "#same-owner@%d" % aggs.index((i, s)), loc(b, i),
+                ctx.check(same, "R03.2", fnkey(rb) + "#same-owner@%d" % aggs.index((i, s, rb)), loc(rb, i),
                           "the definition buffer and the value buffer of a metric come from different owners (%s vs %s): a metric could be "
                           "declared in one record and its value written to another" % (sorted(map(str, a)), sorted(map(str, b_))),
                           "both buffers from %s" % sorted(map(str, a)))
@@ -185,26 +222,7 @@ def run(ctx):
     buf_roles = {}        # metric writer -> (value buffer parameter, definition buffer parameter), decided by what is done with them
     for b in wms:
         pr = Prov(b)
-        bufs = buf_slots(F, b)
-        valbuf, defbuf = bufs[0], bufs[1]
-        # roles by what is done with the buffers, not by their position in the signature: the definition buffer is the one that
-        # receives the `{"Name":` literal here; the value buffer is the one on which the inner writer emits the member name
-        sim_ = c02.BufSim(F, b, CR)
-        named = [p_ for p_ in bufs if any(x.name == "push_raw_str" and len(x.args) > 1 and '"Name":' in (sim_._const_str(x.args[1]) or "") and
-                                          any(slot_match(y, p_) for y in pr.operand(x.args[0])) for x in b.calls())]
-        if len(named) == 1:
-            defbuf = named[0]
-            rest = [p_ for p_ in bufs if p_ != defbuf]
-            valbuf = rest[0]
-            for x in b.calls():
-                for sb in local_callee_bodies(F, x):
-                    if sb.crate != CR:
-                        continue
-                    spr = Prov(sb)
-                    for ai, a in enumerate(x.args):
-                        src = [p_ for p_ in rest if any(slot_match(y, p_) for y in pr.operand(a))]
-                        if src and any(z.name == "json_string" and z.args and any(y[0] == "arg" and y[1] == ai + 1 for y in spr.operand(z.args[0])) for z in sb.calls()):
-                            valbuf = src[0]
+        valbuf, defbuf = writer_roles(F, b, pr)
         buf_roles[b.def_] = (valbuf, defbuf)
         dom = b.dominators()
 
@@ -421,11 +439,21 @@ def run(ctx):
             ai = vi[0] - 1 if len(c.args) == cb.arg_count else None
             if ai is None:
                 continue
-            for x in pr.operand(c.args[ai], (vi[1],) if vi[1] else ()):
-                if x[0] == "arg" and len(x[2]) >= 2:
-                    val_global.add(tuple(x[2][-2:]))
-                elif x[0] == "callf" and x[2]:
-                    val_set.add(x[2][-1])
+            def _slots(bd, prv, origins, depth=1):
+                for x in origins:
+                    if x[0] == "arg" and len(x[2]) >= 1:
+                        val_global.add(x[2][-1])
+                    elif x[0] == "callf" and x[2]:
+                        # the routing may sit in a private helper that returns the bundle: look at what it puts in that field
+                        hbs = [hb for hb in local_callee_bodies(F, CallSite(bd, x[1], bd.term(x[1]))) if hb.crate == CR and hb.kind != "Closure" and
+                               bundle_fields(F, hb.d.get("output") or "")]
+                        if hbs and depth:
+                            for hb in hbs:
+                                hp = Prov(hb)
+                                _slots(hb, hp, hp.local(0, tuple(x[2])), depth - 1)
+                        else:
+                            val_set.add(x[2][-1])
+            _slots(b, pr, pr.operand(c.args[ai], (vi[1],) if vi[1] else ()))
     ctx.check(len(val_global) == 1 and len(val_set) == 1, "R03.6", "value-buffer-slots", "metrique-writer-format-emf/src/emf.rs",
               "could not identify the value buffer of the global record / of a per-set record at the routing site (%s / %s)" % (sorted(val_global), sorted(val_set)),
               "value buffers: global %s, per dimension set .%s" % (sorted(val_global), sorted(val_set)))
@@ -524,7 +552,7 @@ def run(ctx):
         e_global, e_set = set(), set()
         for c in empties:
             o = pr.operand(c.args[0])
-            ga = {tuple(x[2][-2:]) for x in o if x[0] == "arg" and len(x[2]) >= 2}
+            ga = {x[2][-1] for x in o if x[0] == "arg" and len(x[2]) >= 1}
             sa = {x[2][-1] for x in o if x[0] == "callf" and x[2]}
             if ga and ga <= val_global and not sa:
                 e_global.update(bool_edges(c))
